@@ -26,6 +26,11 @@ Fixpoint nodupb (l : list Z) : bool :=
 
 (* -------- relation find: Breakpoints._find_blocks -------------------------- *)
 
+(* [step; 2*step; ...; n*step]: compact form of a long ends array (65 537 ends are a term,
+   not a literal) *)
+Definition arith_list (n step : Z) : list Z :=
+  rev_append (fst (Z.iter n (fun li : list Z * Z => (snd li * step :: fst li, snd li + 1)) ([], 1))) [].
+
 Record fcase := mkf { f_ends : list Z; f_pos : list Z; f_obs : res (list Z) }.
 
 (* i is the index of the first end >= p *)
@@ -53,7 +58,7 @@ Definition holds_find (k : fcase) : bool :=
   else true.
 
 Definition model_find (k : fcase) : res (list Z) :=
-  match find_blocks (f_ends k) (f_pos k) with
+  match find_blocks_np (f_ends k) (f_pos k) with
   | Ok idx => Ok (map Z.of_nat idx)
   | Err e => Err e
   end.
@@ -105,9 +110,18 @@ Definition holds_lookup_gen (d : table) (vs : list variant) (req : option (list 
     end
   else true.
 
-Definition holds_lookup (k : lcase) : bool := holds_lookup_gen (l_tbl k) (l_vs k) (l_req k) (l_obs k).
+(* the documented format: within a strand the block ends of a chromosome are ascending
+   (docs/formats/breakpoints.rst: "sorted according to chrom, bp"); np.searchsorted's
+   precondition.  Tables outside it are compared with the model only. *)
+Definition chrom_ascb (blocks : list seg) : bool :=
+  forallb (fun c => ascending (map endc (on_chrom c blocks))) (map chrom blocks).
+Definition table_ascb (d : table) : bool :=
+  forallb (fun nsb : Z * strands => chrom_ascb (fst (snd nsb)) && chrom_ascb (snd (snd nsb))) d.
 
-Definition model_lookup (k : lcase) := population_array (l_tbl k) (l_vs k) (l_req k).
+Definition holds_lookup (k : lcase) : bool :=
+  if table_ascb (l_tbl k) then holds_lookup_gen (l_tbl k) (l_vs k) (l_req k) (l_obs k) else true.
+
+Definition model_lookup (k : lcase) := population_array_np (l_tbl k) (l_vs k) (l_req k).
 
 Definition check_lookup (k : lcase) : bool * bool :=
   (res_eqb arr_eqb (model_lookup k) (l_obs k), holds_lookup k).
@@ -117,6 +131,7 @@ Definition check_lookup (k : lcase) : bool * bool :=
 Record ecase := mke {
   e_tbl : table; e_given : option (list Z); e_vs : list variant; e_req : option (list Z);
   e_enc : res (table * list (Z * Z));       (* data and labels.items() after encode(given) *)
+  e_part : option table;                    (* data left behind by an encode that raised OverflowError *)
   e_arr : res (list (list (Z * Z)));        (* population_array on the encoded object *)
   e_again : res Z;                          (* a second encode: Err kind (Ok 0 if it returned) *)
   e_rec : res table;                        (* data after recode (labels must be None again) *)
@@ -126,56 +141,83 @@ Record ecase := mke {
 Definition enc_obs_eqb : table * list (Z * Z) -> table * list (Z * Z) -> bool :=
   pair_eqb table_eqb labels_eqb.
 
+(* steps the harness does not run (after an encode that overflowed np.uint8) *)
+Definition E_Skip : Z := 98.
+
 Definition model_codec (k : ecase) :=
   let st0 := mkbp (e_tbl k) None in
   let r1 := encode (e_given k) st0 in
-  let st1 := match r1 with Ok s => s | Err _ => st0 end in
-  let o_enc := bind r1 (fun s => Ok (bdata s, match blabels s with Some l => l | None => [] end)) in
-  let o_arr := population_array (bdata st1) (e_vs k) (e_req k) in
-  let o_again := bind (encode (e_given k) st1) (fun _ => Ok 0) in
-  let r2 := recode st1 in
-  let st2 := match r2 with Ok s => s | Err _ => st1 end in
-  let o_rec := bind r2 (fun s => Ok (bdata s)) in
-  let o_rec_again := bind (recode st2) (fun _ => Ok 0) in
-  (o_enc, o_arr, o_again, o_rec, o_rec_again).
+  match r1 with
+  | Err e =>
+    if e =? E_Overflow then
+      (* the object is left half encoded (labels None): its data and one query are observed *)
+      let part := encode_partial (e_given k) (e_tbl k) in
+      (Err e, Some part, population_array_np part (e_vs k) (e_req k), Err E_Skip, Err E_Skip, Err E_Skip)
+    else
+      (Err e, None, population_array_np (e_tbl k) (e_vs k) (e_req k), Err E_Skip, Err E_Skip, Err E_Skip)
+  | Ok st1 =>
+    let o_enc := Ok (bdata st1, match blabels st1 with Some l => l | None => [] end) in
+    let o_arr := population_array_np (bdata st1) (e_vs k) (e_req k) in
+    let o_again := bind (encode (e_given k) st1) (fun _ => Ok 0) in
+    let r2 := recode st1 in
+    let st2 := match r2 with Ok s => s | Err _ => st1 end in
+    let o_rec := bind r2 (fun s => Ok (bdata s)) in
+    let o_rec_again := bind (recode st2) (fun _ => Ok 0) in
+    (o_enc, None, o_arr, o_again, o_rec, o_rec_again)
+  end.
 
 Definition strands_nonempty (d : table) : bool :=
   forallb (fun sb : Z * strands => negb (match fst (snd sb) with [] => true | _ => false end)
                                    && negb (match snd (snd sb) with [] => true | _ => false end)) d.
 
-(* the codec's domain in the property: distinct given labels, every strand has a block *)
-Definition codec_domain (k : ecase) : bool :=
+Definition pops_of (d : table) : list Z :=
+  flat_map (fun nsb : Z * strands => map pop (fst (snd nsb)) ++ map pop (snd (snd nsb))) d.
+
+(* the codec's domain in the property: distinct given labels, every strand has a block, block
+   ends ascending *)
+Definition codec_domain0 (k : ecase) : bool :=
   strands_nonempty (e_tbl k) && nodupb (map fst (e_tbl k))
-  && match e_given k with Some g => nodupb g | None => true end.
+  && match e_given k with Some g => nodupb g | None => true end
+  && table_ascb (e_tbl k).
+
+(* distinct labels, given or present: np.uint8 has codes for 256 of them *)
+Definition label_count (k : ecase) : Z :=
+  lenZ (dedup (match e_given k with Some g => g | None => [] end ++ pops_of (e_tbl k))).
+
+Definition codec_domain (k : ecase) : bool := codec_domain0 k && (label_count k <=? 256).
 
 Definition map_pop_strands (f : Z -> Z) (sb : strands) : strands :=
   (map (fun s => set_pop s (f (pop s))) (fst sb), map (fun s => set_pop s (f (pop s))) (snd sb)).
 
 Definition holds_codec (k : ecase) : bool :=
-  if codec_domain k then
-    (* decoding restores the data *)
-    res_eqb table_eqb (e_rec k) (Ok (e_tbl k))
-    (* encoded queries return the codes of the same labels: decoding every code of the
-       answer with the observed labels dictionary gives an answer correct for the
-       original table; an error needs a reason in the original table *)
-    && match e_enc k with
-       | Err _ => false
-       | Ok (_, labels) =>
-         nodupb (map snd labels)
-         && match e_arr k with
-            | Ok arr =>
-                forallb (forallb (fun c : Z * Z => existsb (fun kv : Z * Z => snd kv =? fst c) labels
-                                                   && existsb (fun kv : Z * Z => snd kv =? snd c) labels)) arr
-                && holds_lookup_gen (e_tbl k) (e_vs k) (e_req k)
-                     (Ok (map (map (fun c : Z * Z => (label_of labels (fst c), label_of labels (snd c)))) arr))
-            | Err e => holds_lookup_gen (e_tbl k) (e_vs k) (e_req k) (Err e)
-            end
-       end
+  if codec_domain0 k then
+    match e_enc k with
+    (* beyond 256 labels encode may refuse (it raises OverflowError); it may never refuse
+       within them, and whenever it does encode - also beyond - everything below is demanded,
+       so that codes wrapping around silently are a violation, not a limit *)
+    | Err _ => 256 <? label_count k
+    | Ok (_, labels) =>
+      (* decoding restores the data *)
+      res_eqb table_eqb (e_rec k) (Ok (e_tbl k))
+      (* encoded queries return the codes of the same labels: decoding every code of the
+         answer with the observed labels dictionary gives an answer correct for the
+         original table; an error needs a reason in the original table *)
+      && nodupb (map snd labels)
+      && match e_arr k with
+         | Ok arr =>
+             forallb (forallb (fun c : Z * Z => existsb (fun kv : Z * Z => snd kv =? fst c) labels
+                                                && existsb (fun kv : Z * Z => snd kv =? snd c) labels)) arr
+             && holds_lookup_gen (e_tbl k) (e_vs k) (e_req k)
+                  (Ok (map (map (fun c : Z * Z => (label_of labels (fst c), label_of labels (snd c)))) arr))
+         | Err e => holds_lookup_gen (e_tbl k) (e_vs k) (e_req k) (Err e)
+         end
+    end
   else true.
 
 Definition check_codec (k : ecase) : bool * bool :=
-  let '(o_enc, o_arr, o_again, o_rec, o_rec_again) := model_codec k in
-  (res_eqb enc_obs_eqb o_enc (e_enc k) && res_eqb arr_eqb o_arr (e_arr k)
+  let '(o_enc, o_part, o_arr, o_again, o_rec, o_rec_again) := model_codec k in
+  (res_eqb enc_obs_eqb o_enc (e_enc k) && opt_eqb table_eqb o_part (e_part k)
+   && res_eqb arr_eqb o_arr (e_arr k)
    && res_eqb Z.eqb o_again (e_again k) && res_eqb table_eqb o_rec (e_rec k)
    && res_eqb Z.eqb o_rec_again (e_rec_again k),
    holds_codec k).
@@ -200,12 +242,13 @@ Definition lines_eqb : list (list str) -> list (list str) -> bool := list_eqb (l
 
 (* relation read: Breakpoints.read(samples) on a generated file *)
 Record rcase := mkr {
+  r_strict : bool;                         (* harness switch STRICT_FIELD_WIDTH *)
   r_lines : list (list str); r_samples : option (list str); r_ptab : ptable;
   r_obs : res ctable
 }.
 
 Definition model_read (k : rcase) : res ctable :=
-  bp_read (tbl_int (r_ptab k)) (tbl_flt (r_ptab k)) (r_samples k) (r_lines k).
+  bp_read (r_strict k) (tbl_int (r_ptab k)) (tbl_flt (r_ptab k)) (r_samples k) (r_lines k).
 
 (* the property says nothing about arbitrary files: this relation ties the reader's
    model to the code (the round trip is judged in relation write) *)
@@ -214,6 +257,7 @@ Definition check_read (k : rcase) : bool * bool :=
 
 (* relation write: Breakpoints.write() then Breakpoints.read() of the written file *)
 Record wcase := mkw {
+  w_strict : bool;
   w_tbl : ctable; w_fint : list (Z * str); w_fflt : list (Z * str); w_ptab : ptable;
   w_lines : res (list (list str));     (* the written file, split on newline and tab *)
   w_reread : res ctable                (* Breakpoints.load of the written file *)
@@ -245,7 +289,78 @@ Definition check_write (k : wcase) : bool * bool :=
   (match w_lines k with
    | Ok ls => lines_eqb (model_write k) ls
               && res_eqb ctable_eqb
-                   (bp_read (tbl_int (w_ptab k)) (tbl_flt (w_ptab k)) None ls) (w_reread k)
+                   (bp_read (w_strict k) (tbl_int (w_ptab k)) (tbl_flt (w_ptab k)) None ls) (w_reread k)
    | Err _ => false
    end,
    holds_write k).
+
+(* -------- relation flookup: a file with full-length strings, read and queried ------- *)
+
+Record flcase := mkfl {
+  fl_strict : bool;                     (* harness switch STRICT_FIELD_WIDTH *)
+  fl_tbl : ctable;                      (* the table the harness wrote: strings of any length, any bp *)
+  fl_fint : list (Z * str); fl_fflt : list (Z * str);   (* the tokens it wrote for bp / cM *)
+  fl_ptab : ptable;                     (* numpy's conversion of those tokens *)
+  fl_qs : list (str * Z);               (* (chromosome, position) as population_array received them *)
+  fl_req : option (list str);
+  fl_obs : res (list (list (str * str)))
+}.
+
+Definition blocks_of (d : ctable) : list cblk :=
+  flat_map (fun sb : str * (list cblk * list cblk) => fst (snd sb) ++ snd (snd sb)) d.
+
+(* every string of the case, so that [index_of] is injective on them: those of the table, what
+   the reader may store of them, the queries, the request and the observed labels *)
+Definition fl_universe (k : flcase) : list str :=
+  let bs := blocks_of (fl_tbl k) in
+  map fst (fl_tbl k) ++ map c_pop bs ++ map (fun b => firstn 6 (c_pop b)) bs
+  ++ map c_chrom bs ++ map (fun b => firstn 10 (c_chrom b)) bs
+  ++ map fst (fl_qs k) ++ match fl_req k with Some r => r | None => [] end
+  ++ match fl_obs k with
+     | Ok arr => flat_map (flat_map (fun c : str * str => [fst c; snd c])) arr
+     | Err _ => []
+     end.
+
+Definition fl_key (k : flcase) : str -> Z := index_of (fl_universe k).
+
+Definition fl_obsZ (k : flcase) : res (list (list (Z * Z))) :=
+  match fl_obs k with
+  | Ok arr => Ok (map (map (fun c : str * str => (fl_key k (fst c), fl_key k (snd c)))) arr)
+  | Err e => Err e
+  end.
+
+Definition model_flookup (k : flcase) : res (list (list (Z * Z))) :=
+  file_lookup (fl_strict k) (tbl_int (fl_ptab k)) (tbl_flt (fl_ptab k)) (fl_key k)
+    (bp_write (tbl_fmt (fl_fint k)) (tbl_fmt (fl_fflt k)) (fl_tbl k)) (fl_qs k) (fl_req k).
+
+Definition long_chrom (d : ctable) : bool :=
+  existsb (fun b => Nat.ltb 10 (length (c_chrom b))) (blocks_of d).
+
+(* the files of the property's quantifier: distinct sample names, nothing starting with '#',
+   labels of at most the 6 characters the format stores, positions a uint32 holds, block
+   ends ascending; chromosome names of at most 10 characters unless the switch is on *)
+Definition fl_domain (k : flcase) : bool :=
+  nodup_str (map fst (fl_tbl k))
+  && forallb (fun sb : str * (list cblk * list cblk) => negb (first_char_is c_hash (fst sb))) (fl_tbl k)
+  && forallb (fun b => negb (first_char_is c_hash (c_pop b)) && Nat.leb (length (c_pop b)) 6
+                       && (0 <=? c_bp b) && (c_bp b <=? 4294967295)) (blocks_of (fl_tbl k))
+  && (fl_strict k || negb (long_chrom (fl_tbl k)))
+  && table_ascb (table_of (fl_key k) (fl_tbl k)).
+
+(* the property on the strings of the file: every reported label is the label of the first
+   block of that strand on that chromosome whose end is >= the position; an error needs a
+   reason - an unknown sample, a cell no block covers, or a chromosome name the format cannot
+   store (a refusal, never a silent truncation) *)
+Definition holds_flookup (k : flcase) : bool :=
+  if fl_domain k then
+    let d := table_of (fl_key k) (fl_tbl k) in
+    let vs := map (var_of (fl_key k)) (fl_qs k) in
+    let req := option_map (map (fl_key k)) (fl_req k) in
+    match fl_obsZ k with
+    | Ok arr => holds_lookup_gen d vs req (Ok arr)
+    | Err e => holds_lookup_gen d vs req (Err e) || long_chrom (fl_tbl k)
+    end
+  else true.
+
+Definition check_flookup (k : flcase) : bool * bool :=
+  (res_eqb arr_eqb (model_flookup k) (fl_obsZ k), holds_flookup k).
